@@ -174,8 +174,9 @@ assert_eq!(Fix::from_num(7.5).div_euclid(Fix::from_num(2)), Fix::from_num(3));
                     if_signed! {
                         $Signedness;
                         if (self % rhs).is_negative() {
+                            // add −1 instead of subtracting 1: −1 can be representable when 1 is not
                             return if rhs.is_positive() {
-                                q - Self::from_num(1)
+                                q + Self::from_num(-1)
                             } else {
                                 q + Self::from_num(1)
                             };
@@ -225,8 +226,9 @@ assert_eq!(Fix::from_num(7.5).div_euclid_int(2), Fix::from_num(3));
                     if_signed! {
                         $Signedness;
                         if (self % rhs).is_negative() {
+                            // add −1 instead of subtracting 1: −1 can be representable when 1 is not
                             return if rhs.is_positive() {
-                                q - Self::from_num(1)
+                                q + Self::from_num(-1)
                             } else {
                                 q + Self::from_num(1)
                             };
@@ -838,20 +840,14 @@ assert_eq!(Fix::max_value().overflowing_div_euclid(Fix::from_num(0.25)), (wrappe
                     if_signed! {
                         $Signedness;
                         if (self % rhs).is_negative() {
-                            let (q, overflow2) = if rhs.is_positive() {
-                                let minus_one = match Self::checked_from_num(-1) {
-                                    None => return (q, true),
-                                    Some(s) => s,
-                                };
-                                q.overflowing_add(minus_one)
+                            // when ±1 is not representable, add its wrapped value
+                            let (unit, overflow1) = if rhs.is_positive() {
+                                Self::overflowing_from_num(-1)
                             } else {
-                                let one = match Self::checked_from_num(1) {
-                                    None => return (q, true),
-                                    Some(s) => s,
-                                };
-                                q.overflowing_add(one)
+                                Self::overflowing_from_num(1)
                             };
-                            return (q, overflow | overflow2);
+                            let (q, overflow2) = q.overflowing_add(unit);
+                            return (q, overflow | overflow1 | overflow2);
                         }
                     }
                     (q, overflow)
@@ -901,20 +897,14 @@ assert_eq!(Fix::min_value().overflowing_div_euclid_int(-1), (wrapped, true));
                     if_signed! {
                         $Signedness;
                         if (self % rhs).is_negative() {
-                            let (q, overflow2) = if rhs.is_positive() {
-                                let minus_one = match Self::checked_from_num(-1) {
-                                    None => return (q, true),
-                                    Some(s) => s,
-                                };
-                                q.overflowing_add(minus_one)
+                            // when ±1 is not representable, add its wrapped value
+                            let (unit, overflow1) = if rhs.is_positive() {
+                                Self::overflowing_from_num(-1)
                             } else {
-                                let one = match Self::checked_from_num(1) {
-                                    None => return (q, true),
-                                    Some(s) => s,
-                                };
-                                q.overflowing_add(one)
+                                Self::overflowing_from_num(1)
                             };
-                            return (q, overflow | overflow2);
+                            let (q, overflow2) = q.overflowing_add(unit);
+                            return (q, overflow | overflow1 | overflow2);
                         }
                     }
                     (q, overflow)
